@@ -39,7 +39,7 @@ type c34Gen struct {
 }
 
 func (g *c34Gen) word() string {
-	w := []string{"x", "abc", "-n", "0", "12", "'q;q'", "\"d|d\"", "(b;b)", "\\;", "\\|", "%(p q)", "'${ c34u }'", "{ c34u }", "'c34u'", "\\$x", "k=v", "a:b", "<err>", "<!out>", "[1]", "é日", "x\\\\", "\\\\", "a\\\\\\;", "y\\\\", "\\\\\\\\", "z\\\\"}
+	w := []string{"x", "abc", "-n", "0", "12", "'q;q'", "\"d|d\"", "(b;b)", "\\;", "\\|", "%(p q)", "'${ c34u }'", "{ c34u }", "'c34u'", "\\$x", "k=v", "a:b", "<err>", "<!out>", "[1]", "é日", "x\\\\", "\\\\", "a\\\\\\;", "y\\\\", "\\\\\\\\", "z\\\\", "\\%(; c34u)", "`'` ; c34u; out `'`", "/# c #/ ; c34u", "\\%(", "/#", "#/", "`", "`a;c34u`"}
 	return w[g.r.Intn(len(w))]
 }
 
